@@ -4,6 +4,7 @@ import CvssVerif.Spec.Grammar3
 import CvssVerif.Spec.Grammar2
 import CvssVerif.Driver.Dump
 import CvssVerif.Model.Report
+import CvssVerif.Model.Heap
 /-
   Extension operations of the driver.
   `SPEC3` / `SPEC2`: the *specification's* verdict on a string (model-independent oracle used
@@ -301,6 +302,7 @@ def runOpExt (f : List String) : Option String :=
   | ["NM", fn, v, tag] => do let v ← v.toInt?; opNM fn v tag
   | ["R3", l, tag, h] => do let L ← levelOf' l; let s ← ofHex h; pure (opR3 L tag s)
   | ["XM", mode, ref] => opXM mode ref
+  | ["H", h] => some (Heap.runHistory h)
   | ["SPECT3", m] => spect3 m
   | ["SPECT2", m] => spect2 m
   | _ => none
